@@ -37,7 +37,11 @@ SpecA ==
                      Tag("tm", TMap(TRef("L")))>>)) @@
     ("V" :> DUnion("nsa", "U", FALSE, <<Tag("tw", TNull(TRef("U"))), Tag("tx", TVoid)>>)) @@
     ("W" :> DStruct("nsa", "", <<Fld("w1", TRef("U")), Fld("w2", TNull(TRef("V"))),
-                                 Fld("w3", TNull(TRef("P")))>>, <<>>, FALSE))
+                                 Fld("w3", TNull(TRef("P"))),
+                                 \* every evolving type also as list element and map value
+                                 Fld("w4", TNull(TList(TRef("P"), Unset, 2))), Fld("w5", TNull(TMap(TRef("P")))),
+                                 Fld("w6", TNull(TList(TRef("U"), Unset, 2))), Fld("w7", TNull(TMap(TRef("C"))))>>,
+                     <<>>, FALSE))
 
 Structs(sc) == {n \in DOMAIN sc : sc[n].k = "struct"}
 Unions(sc)  == {n \in DOMAIN sc : sc[n].k = "union"}
